@@ -11,6 +11,7 @@ import (
 	"encoding/json"
 	"fmt"
 	"os"
+	"runtime"
 	"sort"
 	"strings"
 	"time"
@@ -18,6 +19,7 @@ import (
 	"github.com/alephium/wormhole-fork/node/cmd/guardiand"
 	"github.com/alephium/wormhole-fork/node/pkg/common"
 	gossipv1 "github.com/alephium/wormhole-fork/node/pkg/proto/gossip/v1"
+	nodev1 "github.com/alephium/wormhole-fork/node/pkg/proto/node/v1"
 	"github.com/alephium/wormhole-fork/node/pkg/vaa"
 	"github.com/alephium/wormhole-fork/node/verifh/ev"
 	"github.com/alephium/wormhole-fork/node/verifh/mc"
@@ -395,6 +397,7 @@ func main() {
 	si, sn, worker := ev.Shard()
 	if !worker {
 		postFull()
+		postFullAdmin()
 		r.Fork(len(cfgs), nil, nil)
 		r.Set("rule", "state key = per (chain, tx) exact ages of last forward / drop / request (harness's own record), phase of the 7-minute purge ticker, queue fill levels; every transition is performed on the real dispatcher goroutine and judged after quiescence")
 		r.Assume("the dispatcher uses only Now and Ticker of the clock interface; ticks are delivered one boundary at a time with quiescence in between (as the mock clock does)")
@@ -474,6 +477,55 @@ func postFull() {
 				<-ch // release it
 				<-done
 			}
+		}
+	}
+}
+
+// postFullAdmin: the admin RPC SendObservationRequest is the second producer of the outbound request queue;
+// at every fill level it must return at once - success with room, an error when the queue is full - with a
+// caller context that has no deadline. Blocking is decided by goroutine-state inspection.
+func postFullAdmin() {
+	for capacity := 0; capacity <= 50; capacity += 10 {
+		ch := make(chan *gossipv1.ObservationRequest, capacity)
+		svc := guardiand.VerifNewPrivilegedService(nil, nil, ch, nil, 1, vaa.Address{})
+		for fill := 0; fill <= capacity; fill++ {
+			r.Add("post_cases", 1)
+			ctx, cancel := context.WithCancel(context.Background())
+			done := make(chan error, 1)
+			go func() {
+				_, err := svc.SendObservationRequest(ctx, &nodev1.SendObservationRequestRequest{ObservationRequest: &gossipv1.ObservationRequest{ChainId: 2, TxHash: []byte{byte(fill)}}})
+				done <- err
+			}()
+			gs, _ := quiesce.Wait(quiesce.Options{Ignore: func(g quiesce.Goroutine) bool { return !g.Has("SendObservationRequest") }})
+			select {
+			case err := <-done:
+				if fill < capacity && (err != nil || len(ch) != fill+1) {
+					r.Violation("admin SendObservationRequest fails although the queue has room", fmt.Sprint(err), []int{capacity, fill})
+				}
+				if fill == capacity && (err == nil || len(ch) != capacity) {
+					r.Violation("admin SendObservationRequest on a full queue does not fail", fmt.Sprint(err), []int{capacity, fill})
+				}
+			default:
+				st := "?"
+				if p := quiesce.Find(gs, "SendObservationRequest"); len(p) > 0 {
+					st = p[0].State
+				}
+				r.Violation("admin SendObservationRequest blocks the caller on a full queue (state "+st+")", "", []int{capacity, fill})
+				// release the parked caller whichever way it waits (room in the queue or its context), then go on
+				// with the next capacity: the fill level of this queue is no longer known
+				cancel()
+				for released := false; !released; {
+					select {
+					case <-done:
+						released = true
+					case <-ch:
+					default:
+						runtime.Gosched()
+					}
+				}
+				fill = capacity // leave this capacity
+			}
+			cancel()
 		}
 	}
 }
